@@ -46,28 +46,21 @@ known("C01", "C01-alias-is-id", ["alias-is-id"], r"^(errors: INVALID SUBREQUEST:
       "an alias named `id` on another field collides with the injected helper id", witness="{ n1s { id: name } }")
 known("C01", "C01-id-aliased", ["id-aliased"], r"^errors: could not find the id for elements in target list: map\[…\]$",
       "when the client aliases `id` the planner adds no helper id and the executor cannot find the id", witness="{ n1s { a: id phone } }")
-known("C01", "C01-id-with-hash", ["data-id-hash"], r"^errors: could not find id in path$",
-      "entity ids containing '#' break the insertion-point encoding field:index#id (executor/point_data.go splits on '#')", witness="ids like N1#1")
+fixed("C01", "C01-id-with-hash", "fa4d884", "entity ids containing # (N1#1): the insertion-point encoding field:index#id was split at every #, the id was dropped and every child step below such an entity failed with could not find id in path")
 fixed("C01", "C01-abstract-fragment-inside-object", "0a0fc43", "{ n1s { ... on Node { id } } } and { leafs { ... on IMid { b } } }: the __typename the planner injects into a fragment on an interface or union was registered for scrubbing under the abstract type name only and leaked into the answer")
 fixed("C01", "C01-mixed-union-list-not-stitched", "b3a82f6", "{ us { ... on N1 { calc } } } with us answering [N1, N4, N1]: FindInsertionPoints gave up on the whole list at the first entry without id (a member type the client did not select), no entry was stitched and the field came back empty without an error")
 known("C01", "C01-list-of-lists", ["list-of-lists"], r"^(errors: entry in result wasn't a map|diff:MISSING (<field>|node))$",
       "FindInsertionPoints does not descend into nested lists", witness="{ grid { phone } } with grid: [[N1!]]")
-known("C01", "C01-interface-only-helpers", ["interface-selection-only-helpers"], r"^errors: INVALID SUBREQUEST: Expected \{, found",
-      "an interface-typed field whose selection contains only id/__typename is rewritten into per-type fragments with empty selection sets (formatSelectionSetForInterface), which print as invalid GraphQL",
-      witness="{ things { __typename } }")
-for a in ["interface-field", "node-interface-field"]:
-    known("C01", "C01-" + a + "-empty-fragment", [a], r"^errors: INVALID SUBREQUEST: Expected \{, found",
-      "an interface-typed field whose per-type selection is empty at the routed service (only helpers selected, or the fields of one implementation live at another service) is rewritten into fragments with empty selection sets, which print as invalid GraphQL (planner/sequential_planner.go:197-236)",
-      witness="{ named { ... on N3 { size } } } with N3.size owned by another service than the interface field")
+fixed("C01", "C01-interface-field-empty-fragment", "f1e91e2", "{ named { ... on N3 { size } } } with N3.size owned by another service, and { things { __typename } }: an interface-typed field was rewritten into one fragment per implementation, implementations with nothing selected at the routed service got fragments with empty selection sets, which print as invalid GraphQL (Expected {, found })")
+known("C01", "C01-typename-aliased-in-interface-field", ["interface-field", "typename", "alias"], r"^diff:(MISSING <field>|EXTRA __typename)$",
+      "inside an interface-typed field whose selection is rewritten into per-type fragments an aliased __typename is replaced by the plain helper: the alias key is missing and __typename appears instead (before fix f1e91e2 these operations failed with an invalid sub-request)",
+      witness="{ named { a: __typename ... on N3 { size } } }")
 known("C01", "C01-node-typed-field", ["node-interface-field"], r"^(diff:(MISSING|EXTRA) (id|__typename|<field>)|errors: INVALID SUBREQUEST: Unknown type \"<x>\"\.)$",
       "a field whose declared type is the Node interface itself is planned like the root node() entry point: plain fields / aliases next to fragments are dropped or leak helpers",
       witness="{ anyNode { ... on N2 { title } id } }")
 known("C01", "C01-shared-enum-extended", ["shared-enum-extended"], r"^errors: (INVALID SUBREQUEST: Value \"<x>\" does not exist in \"<x>\" enum\.|VARIABLE ERROR: input: variable\.\w+ \w+ is not a valid \w+)$",
       "an enum declared with different value sets by two services is merged into the union of the values; an argument value only one service knows is forwarded to the other service, which rejects it",
       witness="{ shade1(s: DARK) } with DARK declared only by the other service")
-known("C01", "C01-abstract-fragment-in-interface-field", ["interface-field", "frag-on-abstract"], r"^diff:MISSING (<field>|__typename)$",
-      "inside an interface-typed field a fragment on another interface (interface chain) is not expanded to the implementing types; its fields and the requested __typename are dropped",
-      witness="{ leafs { __typename ... on IMid { b } } }")
 fixed("C01", "C01-object-key-reused", "411df3d", "{ n1s { b { c { p } } c { c { p } } } } on Wfan: executor.FindSelection resolved a path element depth-first through the whole selection set, so with one response key selecting objects at two positions child results were stitched to / looked for at the wrong place")
 known("C01", "C01-var-named-id", ["var-named-id"], r"^errors: INVALID SUBREQUEST: Variable \"\$id\" of type \"<x>\" used in position expecting type \"<x>\"\.$",
       "a client variable called id collides with the $id the planner declares for node lookups: the child step declares it once, with the type of the client's use",
@@ -94,13 +87,11 @@ C02 = [
  ("root-node", ["root-node"], [r"^plan-drops-client-field: (__typename|node|id|<field>)$", r"^subrequest-invalid: Cannot query field \"<x>\" on type \"<x>\"\.", r"^subrequest-invalid: Fields \"id\" conflict",
                 r"^plan-adds-non-helper-field$", r"^helper-not-registered-for-removal: (id|__typename)$", r"^subrequest-invalid: Expected \{, found"], RN),
  ("alias-is-id", ["alias-is-id"], [r"^subrequest-invalid: Fields \"id\" conflict", r"^plan-drops-client-field: <field>$"], "alias named id collides with the injected helper id"),
- ("interface-field", ["interface-field"], [r"^subrequest-invalid: Expected \{, found", r"^plan-adds-non-helper-field$", r"^subrequest-invalid: Unknown type"], "interface-typed fields are rewritten into per-type fragments that may be empty or name types the receiver lacks"),
  ("node-typed-field", ["node-interface-field"], [r"^subrequest-invalid: Expected \{, found", r"^plan-adds-non-helper-field$", r"^subrequest-invalid: Unknown type", r"^plan-drops-client-field: ", r"^helper-not-registered-for-removal: "],
                 "fields typed as the Node interface are rewritten into per-type fragments that may be empty or name types the receiver lacks"),
  ("memberless-interface", ["memberless-abstract"], [r"^plan-drops-client-field: <field>$", r"^helper-not-registered-for-removal: __typename$"],
                 "the selection on an interface nobody implements is replaced by an unregistered __typename only (observable only at the plan level: the field's value can only be null)"),
  ("shared-enum-extended", ["shared-enum-extended"], [r"^subrequest-invalid: Value \"<x>\" does not exist in \"<x>\" enum\.$", r"^subrequest-variable-error: "], "enum value known to one service only is forwarded to the other"),
- ("abstract-fragment-in-interface-field", ["interface-field", "frag-on-abstract"], [r"^plan-drops-client-field: (<field>|__typename)$"], "fragment on another interface inside an interface-typed field is dropped"),
  ("var-named-id", ["var-named-id"], [r"^subrequest-invalid: Variable \"\$id\" of type", r"^variable-value-differs: "], "client variable named id collides with the stitching variable"),
 ]
 for name, atoms, sigs, what in C02:
